@@ -814,6 +814,10 @@ func builtinSprintfFunc(c Call) (ret Object, err error) {
 }
 
 func builtinGlobalsFunc(c Call) (Object, error) {
+	if c.VM() == nil {
+		// called directly from Go without a VM, there are no globals
+		return Undefined, nil
+	}
 	return c.VM().GetGlobals(), nil
 }
 
